@@ -164,6 +164,29 @@ func (w *World) Start(op Op, ctx context.Context) {
 			val, err = c.P.Rev(ctx, op.Tok)
 		case "reader":
 			val, err = c.P.ReadAll(ctx, op.Tok, bytes.NewReader(Payload(op.Tok, op.Size)))
+		case "subt":
+			var ct <-chan SubElem
+			ct, err = c.P.SubT(ctx, op.Tok)
+			if err == nil && ct != nil {
+				st := e.Sub(op.Tok)
+				st.mu.Lock()
+				st.Handed = true
+				st.HandedAt = e.S.Step()
+				st.mu.Unlock()
+				ci := make(chan int)
+				id := simrt.Spawn("subt-client-adapter")
+				go simrt.RunG(id, func() {
+					defer close(ci)
+					for v := range ct {
+						val := SubVal(v.Tok, v.K)
+						if op.Size > 0 && v.Pad != Result(val, op.Size) {
+							val = -val - 1 // corrupted payload
+						}
+						ci <- val
+					}
+				})
+				w.consume(op, ci)
+			}
 		case "sub", "subretry":
 			var ch <-chan int
 			if op.Kind == "sub" {
